@@ -225,7 +225,7 @@ func (c *RCase[T]) fire(x *Exec) {
 	x.afterRecv(c.k, c.Ok)
 }
 func (c *RCase[T]) key() uintptr { return c.k }
-func (c *RCase[T]) wrote() bool   { return c.Ok }
+func (c *RCase[T]) wrote() bool  { return c.Ok }
 
 // SCase is a send clause.
 type SCase[T any] struct {
@@ -256,7 +256,7 @@ func (c *SCase[T]) fire(x *Exec) {
 	c.ch <- c.v
 }
 func (c *SCase[T]) key() uintptr { return c.k }
-func (c *SCase[T]) wrote() bool   { return true }
+func (c *SCase[T]) wrote() bool  { return true }
 
 // Select is the instrumented select statement. It returns the index of the clause that
 // fired, or -1 for default. Inactive mode falls back to reflect.Select.
